@@ -1352,6 +1352,14 @@ class Sym:
         if r is not None:
             ln = r.length if r.length is not None else (r.end()[0] - r.start[0], r.end()[1] - r.start[1])
             return self.lin_poly(ln)
+        tc_ = t
+        while tc_[0] == "cast" and "Unsize" in str(tc_[1]):
+            tc_ = strip(tc_[2])
+        if tc_[0] in ("cdef", "static"):
+            # a named constant array: its declared length
+            ty_ = self.type_of(tc_)
+            if ty_ is not None and ty_.get("k") == "array" and ty_.get("n") is not None:
+                return Poly.const(ty_["n"])
         if t[0] == "field" and t[2] == 0 and unmut(t[1])[0] == "downcast" and unmut(t[1])[2] == "Some":
             # an element yielded by `chunks_exact(n)` has exactly n elements
             nx = unmut(unmut(t[1])[1])
